@@ -100,10 +100,13 @@ def run(ctx):
     P = evaluate(ctx, "C16_cases", obs)
     report(ctx, obs, P)
     # targeted probes: a blocked backend Close must not stall the connection; the shared qids.Mapper under contention
-    rc3, out3, obs3 = ctx.gotest("p9", "^TestVerifC16Stall$", FILES, timeout=300)
+    rc3, out3, obs3 = ctx.gotest("p9", "^TestVerifC16(Stall|RenameDisconnect)$", FILES, timeout=300)
     st = [o for o in obs3 if o.get("kind") == "stall"]
-    if rc3 != 0 or not st:
-        ctx.harness_broken("harness TestVerifC16Stall failed (rc=%d)" % rc3, out3)
+    rd = [o for o in obs3 if o.get("kind") == "renamedisc"]
+    if rd and not rd[0]["answered"]:
+        ctx.violation("C16:deadlock:rename-disconnect", "Trenameat was never answered (server-wide deadlock under renameMu.W): " + rd[0]["what"], rd[0])
+    if rc3 != 0 or not st or not rd:
+        ctx.harness_broken("harness TestVerifC16Stall/RenameDisconnect failed (rc=%d)" % rc3, out3)
     elif not st[0]["answered"]:
         ctx.violation("C16:stall", "a request on another fid was not answered (3 x 1.1 s) while the backend held the Close of a Tclunk on the same connection", st[0])
     rc4, out4, obs4 = ctx.gotest("fsimpl/qids", "^TestVerifC16Mapper$", ["c16_mapper_test.go"], timeout=300, race=ctx.thorough)
